@@ -18,7 +18,8 @@ try:
     cwd = '/repo'
     if f.startswith('tools/goctl/'):
         cwd = '/repo/tools/goctl'; d = os.path.dirname(f[len('tools/goctl/'):])
-    b = subprocess.run(['go', 'build', './' + d + '/'], cwd=cwd, env=env, capture_output=True, text=True)
+    mf = ['-modfile=/verif/standins/goctl.alt.mod'] if f.startswith('tools/goctl/') else []
+    b = subprocess.run(['go', 'build'] + mf + ['./' + d + '/'], cwd=cwd, env=env, capture_output=True, text=True)
     if b.returncode != 0:
         print("MUTANT DOES NOT COMPILE:", b.stderr[:400]); sys.exit(2)
     for p in props.split(','):
